@@ -3,8 +3,9 @@
 # Confirms in a scratch worktree of /repo HEAD: demo passes without the patch, fails with it; full suite passes with it.
 SD=$1; L=$2
 export GOFLAGS=-mod=mod GOPROXY=off GOSUMDB=off GOTOOLCHAIN=local
-WT=/tmp/confirm/wt_$L
-mkdir -p /tmp/confirm
+OUT=${OUT:-/tmp/confirm}
+WT=$OUT/wt_$L
+mkdir -p $OUT
 git -C /repo worktree remove --force $WT 2>/dev/null
 git -C /repo worktree add --detach $WT HEAD >/dev/null 2>&1 || { echo "$L: worktree failed"; exit 2; }
 cd $WT
@@ -13,12 +14,12 @@ for f in $SD/zz_seed*_test.go; do cp $f $WT/$pkgdir/; done
 run=$(python3 -c "import json;print(json.load(open('$SD/meta.json')).get('demo_run',''))")
 [ -z "$run" ] && run="go test -vet=off -count=1 -run TestSeed ./$pkgdir/"
 run=$(echo "$run" | sed 's/^export [^;]*; *//; s/^cd [^&]*&& *//')
-sh -c "$run" > /tmp/confirm/$L.clean.log 2>&1; clean=$?
+sh -c "$run" > $OUT/$L.clean.log 2>&1; clean=$?
 if ! git apply --check $SD/patch.diff 2>/dev/null; then echo "$L: PATCH-DOES-NOT-APPLY clean_demo_exit=$clean"; git -C /repo worktree remove --force $WT; exit 3; fi
 git apply $SD/patch.diff
-go build ./... > /tmp/confirm/$L.build.log 2>&1; build=$?
-sh -c "$run" > /tmp/confirm/$L.patched.log 2>&1; patched=$?
+go build ./... > $OUT/$L.build.log 2>&1; build=$?
+sh -c "$run" > $OUT/$L.patched.log 2>&1; patched=$?
 rm -f $WT/$pkgdir/zz_seed*_test.go
-go test -vet=off -count=1 -timeout 25m ./... > /tmp/confirm/$L.suite.log 2>&1; suite=$?
-echo "$L: build=$build demo_clean_exit=$clean demo_patched_exit=$patched suite_exit=$suite" | tee -a /tmp/confirm/results.txt
+go test -vet=off -count=1 -timeout 25m ./... > $OUT/$L.suite.log 2>&1; suite=$?
+echo "$L: build=$build demo_clean_exit=$clean demo_patched_exit=$patched suite_exit=$suite" | tee -a $OUT/results.txt
 cd /; git -C /repo worktree remove --force $WT
